@@ -74,6 +74,9 @@ def run(ctx):
         r = grid(rng, r_e, r_d, int(rng.choice([60, 120, 240, 400])))
         ng = r.size
         nl, kT, q = species(rng, cur, e)
+        # "the ion-free result equals the pure beam potential": one ion-free call (what Device.get does) and one with neutrals only
+        if k == 1: nl = np.zeros_like(nl)
+        if k == 2: q = np.zeros_like(q)
         ns = nl.size
         col = lambda v: np.asarray(v, float)[:, None]
         # ---- e-beam variant
